@@ -30,7 +30,7 @@
 From Coq Require Import List Arith Bool NArith ZArith Sorting.Sorted.
 From SNT Require Import Base.Outcome Surface.Bounds Surface.Shape Surface.ShapeProofs
   Render.CellLayout Render.Writer Render.TokFuel Render.WriterTty Render.WriterFrame Render.WriterChunks Render.LayoutFacts Render.LayoutRender
-  Render.TextView Render.C09Main Render.JsonText.
+  Render.TextView Render.C09Main Render.JsonText Corr.C09Link.
 Import ListNotations.
 
 (* (1a) Containment on canvas views.  Whatever a client writes through a writer over a view of a
@@ -191,8 +191,9 @@ Qed.
 (* (5) TextDeserializer loses nothing either: the Text built from a JSON document holds exactly the
    characters and glyphs of the document in document order (jt_kinds), each under the faces of the objects
    around it laid over one another outermost first (jt_emit); cells already in the text are kept; the
-   wraps flag is the last "wraps" met; the writing face is restored after every object.  (A glyph
-   object's "text" is not visited, as coded.) *)
+   wraps flag is the last "wraps" met; the writing face is restored after every object.  An object with a
+   "glyph" contributes the glyph only: the "text" it may also carry (JBGlyph k (Some t)) is NOT visited, as
+   coded (`if let Some(glyph) .. else if let Some(text)`); jt_emit / jt_kinds say so explicitly. *)
 Theorem C09_json_text : forall (t : jtext) (cs : list ccell) (w : bool) (cur : face),
   jt_collect (mkJ cs w cur) t = mkJ (cs ++ jt_emit cur t) (jt_wraps w t) cur.
 Proof. exact jt_collect_spec. Qed.
@@ -200,6 +201,16 @@ Proof. exact jt_collect_spec. Qed.
 Theorem C09_json_text_kinds : forall (t : jtext),
   map c_kind (j_cells (jt_collect j0 t)) = jt_kinds t /\ j_face (jt_collect j0 t) = face0.
 Proof. exact jt_deserialize_kinds. Qed.
+
+(* (6) The predicate of the correspondence run judges the canvas against a reference written from kinds
+   and widths alone (Corr/C09Corr.v: ref_expand, ref_width, ref_printable, ref_nowrap).  That reference
+   and the notions (3), (4) are stated with denote the same cells: with wrapping the printables, without
+   wrapping those the no-wrap placement keeps. *)
+Theorem C09_reference_link : forall (ctx : rctx) (cells : list ccell) (wraps : bool) (w : nat),
+  C09Corr.expected_cells ctx cells wraps w =
+  if wraps then printables ctx cells
+  else keep_placed (printables ctx cells) (nowrap_place w (lcells ctx (expand ctx cells)) 0 0).
+Proof. exact expected_cells_link. Qed.
 
 (* ---------- non-vacuity ---------- *)
 (* a transposed, offset view of a 5 x 6 canvas; a program that writes "a€" split inside the
@@ -346,10 +357,32 @@ Proof. vm_compute. split; reflexivity. Qed.
 (* ["a", {face: fg, text: ["b", {face: bg, glyph}]}, {wraps: false}] *)
 Example C09_json_text_nonvacuous :
   let g := KGlyph 999 1 2 [120%N] in
-  let doc := JArr [JStr [97%N]; JObj (Some (mkFace (Some 255%N) None 0%N)) None
-                                   (JBText (JArr [JStr [98%N]; JObj (Some (mkFace None (Some 65535%N) 0%N)) None (JBGlyph g)]));
-                   JObj None (Some false) JBNone] in
+  let doc := TxArr [TxStr [97%N]; TxObj (Some (mkFace (Some 255%N) None 0%N)) None
+                                   (JBText (TxArr [TxStr [98%N]; TxObj (Some (mkFace None (Some 65535%N) 0%N)) None (JBGlyph g (Some (TxStr [122%N])))]));
+                   TxObj None (Some false) JBNone] in
   jt_collect j0 doc =
   mkJ [mkCell face0 (KChar 97); mkCell (mkFace (Some 255%N) None 0%N) (KChar 98);
        mkCell (mkFace (Some 255%N) (Some 65535%N) 0%N) g] false face0.
 Proof. vm_compute. reflexivity. Qed.
+
+(* one utf8_writer() adapter: E2 | 82 | parent set_cursor | AC 'a': the euro sign is completed after the
+   parent operation and lands where the cursor was moved to; joining E2 and 82 into one call changes nothing *)
+Example C09_session_chunking_utf8_nonvacuous :
+  let st := writer_new (of_size 1 4) (repeat blank 4) in
+  let items := [SBytes [226]; SBytes [130]; SParent (PCursor 0 2); SBytes [172; 97]]%N in
+  merge_items items = [SBytes [226; 130]; SParent (PCursor 0 2); SBytes [172; 97]]%N /\
+  sess_u ex_ctx st (merge_items items) = sess_u ex_ctx st items /\
+  match sess_u ex_ctx st items with
+  | Ok (st', ok) => map c_kind (w_data st') = [KChar 32; KChar 32; KChar 8364; KChar 97] /\ ok = true
+  | _ => False
+  end.
+Proof. vm_compute. repeat split; reflexivity. Qed.
+
+(* "ab" + tab + wide + newline + "c" at width 4 without wrapping: the reference of the predicate and the
+   placement of the theorems keep the same cells (the wide character does not fit after the tab) *)
+Example C09_reference_link_nonvacuous :
+  let cells := [mkCell face0 (KChar 97); mkCell face0 (KChar 98); mkCell face0 (KChar 9); mkCell face0 (KChar 28450);
+                mkCell face0 (KChar 10); mkCell face0 (KChar 99)]%N in
+  map c_kind (C09Corr.expected_cells ex_ctx cells false 4) = [KChar 97; KChar 98; KChar 99]%N /\
+  map c_kind (C09Corr.expected_cells ex_ctx cells true 4) = [KChar 97; KChar 98; KChar 28450; KChar 99]%N.
+Proof. vm_compute. split; reflexivity. Qed.
